@@ -650,6 +650,11 @@ unsigned cmb_random_loaded_dice(const unsigned n, const double *pa)
         }
     }
 
+    if (ui == n) {
+        /* The probabilities may sum to slightly less than one, x was above */
+        ui = n - 1u;
+    }
+
     cmb_assert_debug(ui < n);
     return ui;
 }
